@@ -18,6 +18,7 @@ def run(ctx):
     O.opt1_shared_optional_payload(ctx)
     O.flw7_catalogue_lookups_on_query_path(ctx)
     K.chk7_scalar_implementations(ctx)
+    L.cnd2_every_wakeup_condition_notifies(ctx)
     return ctx.finish(
         'Static analysis of compiler MIR: deadlock-freedom clauses (acyclic lock-order graph over '
         'all lock identities, no guard across blocking calls except tabled sites, paired condvar '
